@@ -70,8 +70,17 @@ Definition redefine (t : circuit) (m : string) (ty : gtype) (o : bool) (fi : lis
 Definition lit_and (T : ttab) (μ : string → string) (z : string) (t : circuit) (p : string) : circuit :=
   (add_fresh t (p ++ "_is_0") (a_lit T) [p; μ p] z false).1.
 Definition lit_or (T : ttab) (μ : string → string) (z : string) (t : circuit) (p : string) : circuit :=
-  let '(t', h) := add_fresh t (p ++ "_is_1") (o_lit T) [p] z false in
-  (add_fresh t' (p ++ "_not_x") (o_neg T) [μ p] h false).1.
+  let r := add_fresh t (p ++ "_is_1") (o_lit T) [p] z false in
+  (add_fresh r.1 (p ++ "_not_x") (o_neg T) [μ p] r.2 false).1.
+
+(* the and/nand and or/nor branches: companion, x_in_fi, the control node, then one literal gadget per fan-in *)
+Definition ctl_branch (μ : string → string) (litstep : string → circuit → string → circuit) (sc : string)
+    (comp xin ctl : gtype) (t : circuit) (n : string) (o : bool) (ps : list string) : circuit :=
+  let m := μ n in
+  let t1 := redefine t m comp o [] in
+  let r2 := add_fresh t1 (n ++ "_x_in_fi") xin (μ <$> ps) m true in
+  let r3 := add_fresh r2.1 (n ++ sc) ctl [] m false in
+  foldl (litstep r3.2) r3.1 ps.
 
 (* one iteration of `for n in c:`; ps = list(c.fanin(n)) *)
 Definition step (T : ttab) (c : circuit) (fo : string → list string) (t : circuit) (n : string) : res circuit :=
@@ -79,15 +88,9 @@ Definition step (T : ttab) (c : circuit) (fo : string → list string) (t : circ
   match c !! n with None => BadOrder | Some i =>
   let ps := fo n in
   if tin (n_ty i) (l_and T) then
-    let t1 := redefine t (μ n) (a_comp T) (n_out i) [] in
-    let t2 := (add_fresh t1 (n ++ "_x_in_fi") (a_xin T) (μ <$> ps) (μ n) true).1 in
-    let '(t3, z) := add_fresh t2 (n ++ "_0_not_in_fi") (a_ctl T) [] (μ n) false in
-    Ok (foldl (lit_and T μ z) t3 ps)
+    Ok (ctl_branch μ (lit_and T μ) "_0_not_in_fi" (a_comp T) (a_xin T) (a_ctl T) t n (n_out i) ps)
   else if tin (n_ty i) (l_or T) then
-    let t1 := redefine t (μ n) (o_comp T) (n_out i) [] in
-    let t2 := (add_fresh t1 (n ++ "_x_in_fi") (o_xin T) (μ <$> ps) (μ n) true).1 in
-    let '(t3, z) := add_fresh t2 (n ++ "_1_not_in_fi") (o_ctl T) [] (μ n) false in
-    Ok (foldl (lit_or T μ z) t3 ps)
+    Ok (ctl_branch μ (lit_or T μ) "_1_not_in_fi" (o_comp T) (o_xin T) (o_ctl T) t n (n_out i) ps)
   else if tin (n_ty i) (l_buf T) then
     match ps with [] => Raise KeyError | p :: _ => Ok (redefine t (μ n) (b_comp T) (n_out i) [μ p]) end
   else if tin (n_ty i) (l_par T) then Ok (redefine t (μ n) (p_comp T) (n_out i) (μ <$> ps))
